@@ -129,9 +129,10 @@ class Utils:
             return -1.0
 
     @staticmethod
-    def version_key(version: str) -> Tuple[Tuple[int, Union[int, str]], ...]:
+    def version_key(version: str) -> Tuple[Tuple[int, int, str], ...]:
         '''Converts a dotted version string into a key that orders its components numerically (so that "10.0" > "9.9" and "0.10.6" > "0.7.0").  Non-numeric components sort before numeric ones.'''
-        return tuple((1, int(c)) if c.isdigit() else (0, c) for c in version.split('.'))
+        # Numeric components are compared by their number of digits, then digit by digit (leading zeros aside), rather than through int(): a peer chooses how long they are, and int() refuses strings of more than a few thousand digits.
+        return tuple((1, len(c.lstrip('0')), c.lstrip('0')) if c.isdigit() else (0, 0, c) for c in version.split('.'))
 
     @staticmethod
     def parse_host_and_port(host_and_port: str, default_port: int = 22) -> Tuple[str, int]:
